@@ -62,12 +62,74 @@ def build_molecule(spec, top=None, coords=None, resids=None):
         return Molecule(top, residues_from_spec(spec, coords, resids))
 
 
+# ---------------------------------------------------------------- usage styles of library calls
+# Every case carries two bits (derived from its digest by the runner, so replay reproduces them) that change HOW the
+# harness calls the library through lib(), not WHAT it asks:
+#   kwargs     - arguments are passed by keyword (for callables whose signature allows it);
+#   fail_first - a stateless entry point (function or constructor of the list below) is first called with one argument
+#                spoilt (an array of the wrong shape, a path that does not exist); whatever that call does - it
+#                normally raises - is ignored and the real call follows (error-then-continue).
+USAGE = {"kwargs": False, "fail_first": False}
+_STATELESS = {"move_mol_atom", "find_atom_random_displ", "rotation_matrix", "calcule_base", "read_topology",
+              "guess_residue_restrains", "guess_protein_restrains", "Chi2Calculator", "GroFile", "ItpFile", "MoleculeTop",
+              "SystemGro", "System", "open_coordinate_file", "ExchangeMap"}
+
+
+def set_usage(bits):
+    USAGE["kwargs"] = bool(bits & 1)
+    USAGE["fail_first"] = bool(bits & 2)
+
+
+def _spoilt(args):
+    """args with the first spoilable argument spoilt, or None."""
+    out = list(args)
+    for k, a in enumerate(out):
+        if isinstance(a, np.ndarray) and a.ndim >= 1 and a.shape[-1] >= 2:
+            out[k] = np.array(a[..., :-1])
+            return out
+        if isinstance(a, str) and ("/" in a or "." in a):
+            out[k] = a + ".does-not-exist"
+            return out
+        if isinstance(a, (list, tuple)) and len(a) >= 2 and all(isinstance(x, np.ndarray) for x in a):
+            out[k] = list(a[:-1])
+            return out
+    return None
+
+
+def _styled_call(fn, args, kwargs):
+    import inspect
+    name = getattr(fn, "__name__", "")
+    if USAGE["fail_first"] and name in _STATELESS and (inspect.isfunction(fn) or inspect.isclass(fn)):
+        bad = _spoilt(args)
+        if bad is not None:
+            state = np.random.get_state()
+            try:
+                res = fn(*bad, **kwargs)
+                close = getattr(res, "close", None)
+                if callable(close):
+                    close()
+            except Exception:      # noqa: BLE001
+                pass
+            np.random.set_state(state)        # the judged call sees the random stream the case prescribes
+    if USAGE["kwargs"] and args:
+        try:
+            sig = inspect.signature(fn)
+            kinds = [p.kind for p in sig.parameters.values()]
+            if not any(k in (inspect.Parameter.VAR_POSITIONAL, inspect.Parameter.POSITIONAL_ONLY,
+                             inspect.Parameter.VAR_KEYWORD) for k in kinds):
+                bound = sig.bind(*args, **kwargs)
+                return fn(**bound.arguments)
+        except (TypeError, ValueError):
+            pass
+    return fn(*args, **kwargs)
+
+
 def lib(clause, fn, *args, **kwargs):
     """Call library code on an input inside the stated domain: an exception is a
     violation of `clause` (never a harness error)."""
     try:
         with env.quiet():
-            return fn(*args, **kwargs)
+            return _styled_call(fn, args, kwargs)
     except (PropertyViolation, Discard):
         raise
     except BaseException as exc:   # noqa: BLE001 - recursion errors etc. included
